@@ -130,6 +130,18 @@ func (x *Exec) ghostStmtEnv(st *State, fi int, c *Contract, g *GhostStmt, s stri
 	defer func() {
 		if r := recover(); r != nil {
 			if se, ok := r.(specError); ok {
+				// a local that is declared in a block this path did not enter:
+				// the statement does not apply on this path
+				if j := strings.Index(se.msg, "unknown identifier \""); j >= 0 && fi < len(st.frames) {
+					name := strings.TrimSuffix(se.msg[j+len("unknown identifier \""):], "\"")
+					for _, b := range st.frames[fi].fn.Blocks {
+						for _, in := range b.Instrs {
+							if a, ok := in.(*ssa.Alloc); ok && a.Comment == name {
+								return
+							}
+						}
+					}
+				}
 				x.errorf("ghost statement (%s line %d): %s", c.Key, g.Line, se.msg)
 				return
 			}
@@ -204,6 +216,12 @@ func (x *Exec) ghostStmtEnv(st *State, fi int, c *Contract, g *GhostStmt, s stri
 		// ghost local
 		if st.ghostLoc == nil {
 			st.ghostLoc = map[string]Value{}
+		}
+		for _, r := range x.recs {
+			if r.ghostL == nil {
+				r.ghostL = map[string]bool{}
+			}
+			r.ghostL[name] = true
 		}
 		if cur, ok := st.ghostLoc[name]; ok && cond.S != "true" {
 			v.T = Ite(cond, v.T, cur.T)
